@@ -410,8 +410,8 @@ PROPS["C16"] = dict(
 )
 
 PROPS["C15"] = dict(
-    modules=["Morlock.Props.C15", "Morlock.Props.C15Limits", "Morlock.Props.Audit.C15Halt", "Morlock.Props.C03"],
-    streams=["c15"],
+    modules=["Morlock.Props.C15", "Morlock.Props.C15Limits", "Morlock.Props.Audit.C15Halt", "Morlock.Props.C03", "Morlock.Props.C18Cfg"],
+    streams=["c15", "engcfg"],
     level_text="Lean theorem: for every clock 0 <= remaining < 2^62 ns and EVERY int64 moves-to-go (the uci parser accepts any integer), TimeControl.Limits gives 0 <= soft <= hard <= "
                "remaining and none of its divisions can panic (C15Limits.hard_le_remaining, divisor_ok; int64 wrap-around and truncating division explicit; a negative clock is outside: "
                "remaining = -80 gives hard = -3). That each iteration returns what a direct fixed-depth search returns is not a theorem of the small-step model (there `search d` is a function "
@@ -431,7 +431,7 @@ PROPS["C15"] = dict(
     partial=["IterConc is tied to the code only indirectly: on every iter op the small-step model run under the canonical schedule must stop where the SEQUENTIAL model does, and the stream ties the sequential model "
              "to the code (last depth, scores, PVs); gated-halt scenarios exercise its conclusions on the real code; real timers through the gate only",
              "no liveness theorem; parent-context cancellation and search errors are not modelled (with them Halt can return the empty PV); the clock must not be negative"],
-    modelled=["search/searchctl/timectrl.go: TimeControl.Limits -> Model.TimeCtl; iterative.go process loop -> Driver.Misc.iterOp over Model.Search (sequential) and Model.IterConc (small-step: searcher, watcher, Halt callers, consumer)"],
+    modelled=["engine/engine.go options / table / noise bookkeeping -> Model/EngineCfg.lean (theorems Props/C18Cfg: launch_depth, hash_off_no_table, table_changed_only_by_reset; stream engcfg)", "search/searchctl/timectrl.go: TimeControl.Limits -> Model.TimeCtl; iterative.go process loop -> Driver.Misc.iterOp over Model.Search (sequential) and Model.IterConc (small-step: searcher, watcher, Halt callers, consumer)"],
 )
 
 PROPS["C17"] = dict(
@@ -456,8 +456,8 @@ PROPS["C17"] = dict(
 )
 
 PROPS["C18"] = dict(
-    modules=["Morlock.Props.C18"],
-    streams=["c18"],
+    modules=["Morlock.Props.C18", "Morlock.Props.C18Cfg"],
+    streams=["c18", "engcfg"],
     timeout=dict(quick=900, thorough=6000),
     level_text="Lean theorems (for the table-free search model; repeatability itself is `rfl` there - a pure function has no hidden state - so that part of the property rests on the TIE: the model agrees with the code on repeated, interleaved and concurrent runs): function_of_game - two games related by a simulation that preserves what a node reports (drawn?, ply, moves, in check?, evaluation; NOT the hash) "
                "give identical score, PV, node and poll counts at every depth and window when no table is used (hash_irrelevant); seed_independent - boards built by the same moves "
@@ -466,7 +466,11 @@ PROPS["C18"] = dict(
                "carried_table_same_score (C11); analysis_isolated - any push/pop sequence at or above the fork point on the analysis fork leaves every observation of the engine's "
                "board unchanged (C08), analysis_sees_the_game - the search on the rebased fork equals the search on the engine's own world, analyze_pure. Tie: each search (plain, "
                "turochamp, sargon, bernstein wiring) repeated, with three Zobrist seeds, after and alongside other searches: identical (nodes, score, PV); analysis parked inside an "
-               "evaluation while the engine's game moves on; noise reproducible from the seed.",
+               "evaluation while the engine's game moves on; noise reproducible from the seed. C18Cfg (Model/EngineCfg.lean, the option / table / noise bookkeeping of engine.Engine, tied by the `engcfg` stream: "
+               "a spy search records what every launch is handed, the unexported fields are read by reflection, exact comparison after every operation): for EVERY operation sequence the options are what the setters made them "
+               "(opts_eq_fold_setters; an analysis never alters them), a search is launched with the limit asked for else the configured depth (launch_depth), with the table of the current game (launch_table), which only a "
+               "successful Reset replaces - by a table no earlier game had (reset_table_fresh_reachable) or by none when the hash is off (hash_off_no_table) -, and with a noise source of its own (noise_seeds_increase) "
+               "whose limit is the option as it was when the game started (launch_noise_of_game).",
     level_note="Trusted: Lean kernel. seed_independent_reachable discharges the GoodStep hypothesis for every game played with generated moves from a WFplay start (goodGen_of_wf, treeCheck_of_wf). Data races between an unwinding halted search and its successor: race detector (quick: SARGON supersede; thorough: more). "
                "The historical evaluators are transcribed (C20: BERNSTEIN, SARGON incl. its per-board reference values - the shared state repaired in 353417e -, TUROCHAMP incl. independence of Go's map order); "
                "their wiring into the search is exercised by repetition, seeds and superseding searches.",
@@ -476,7 +480,7 @@ PROPS["C18"] = dict(
              "hash seed with a table on each side: seed_independent_with_tables gives equal root scores (C11.transparent_on on both sides + table-free seed independence; its hypotheses are the conjunction of C11's region hypotheses and seed_independent's, each instantiated on chess separately, not jointly); node counts / PVs across seeds with a table are not claimed (slot collisions differ)"
              "stated as a theorem; node counts / PVs across seeds with a table are not claimed (slot collisions differ)",
              "repeatable / repeatable_after / analyze_pure restate that the model is a pure function: the content is in function_of_game*, seed_independent*, state_irrelevant, analysis_isolated, analysis_sees_the_game"],
-    modelled=["engine/engine.go Analyze (fork), board.Fork, search (pure model)"],
+    modelled=["engine/engine.go Analyze (fork), board.Fork, search (pure model)", "engine/engine.go SetDepth / SetHash / SetNoise / Reset / Move / TakeBack / Analyze / Halt: options, table, noise, search counter, active flag -> Model/EngineCfg.lean"],
 )
 
 PROPS["C20"] = dict(
